@@ -172,7 +172,7 @@ def run_case(case, seed):
         sv = np.linalg.svd(M, compute_uv=False)
         Uf, sf, Vhf = np.linalg.svd(M, full_matrices=False)
         is_term = spec[0] == "term"
-        if is_term and (sv[-1] < 1e-3 * sv[0]):
+        if is_term and (sv[0] == 0 or sv[-1] < 1e-3 * sv[0]):
             return {"states": 0, "transitions": 1, "outcome": "not-judged", "violations": [], "notes": {"terms_not_judged_rank_deficient_or_cond>1e3": 1}}
         gaps = np.abs(np.diff(sf)) >= 1e-3 * sv[0] if r > 1 else np.ones(0, bool)
         if is_term and algname == "Lanczos" and not np.all(gaps):
@@ -237,7 +237,7 @@ def run_pinv(case, seed):
         warnings.simplefilter("ignore")
         A, M, sig = operator(spec, seed)
         m, n = M.shape
-        if spec[0] == "term" and (sig[-1] < 1e-3 * sig[0] or (algname == "CG" and sig[-1] < sig[0] / 30)):
+        if spec[0] == "term" and (sig[0] == 0 or sig[-1] < 1e-3 * sig[0] or (algname == "CG" and sig[-1] < sig[0] / 30)):
             return {"states": 0, "transitions": 1, "outcome": "not-judged", "violations": [],
                     "notes": {"pinv_terms_not_judged_rank_deficient_or_illconditioned": 1}}
         Mp = np.linalg.pinv(M)
